@@ -77,7 +77,7 @@ Proof. intros W. destruct (canon_json_total s c W) as (j & E). exact (inline_out
 
 Lemma wf_convb_parts s c : wf_convb s c = true ->
   Xmi.wf_inb s c = true /\ XmiLoad.schema_okb s = true /\ wf_jsonb s c = true /\ ids_distinctb s c = true /\
-  refs_wfb s c = true /\ slots_declb s (c_heap c) = true.
+  refs_wfb s c = true /\ slots_declb s (c_heap c) = true /\ arrays_privateb s c = true.
 Proof.
   unfold wf_convb. intros H.
   repeat match type of H with (_ && _ = true) => apply andb_prop in H; let H' := fresh "P" in destruct H as [H H'] end.
@@ -86,27 +86,28 @@ Qed.
 
 (* a CAS whose structures carry their ids is left unchanged by the JSON save: the views loop assigns no id to a sofa
    byte array, the traversal assigns none (ConvertInline.json_traversal_same) *)
-Lemma step_view_same L s c fss views v c1 fss1 views1 :
+Lemma step_view_same L s c fss views wr v c1 fss1 views1 wr1 :
   (forall o, s_arr (v_sofa v) = Some o -> exists f i, hget (c_heap c) o = Some f /\ o_id f = Some i) ->
-  step_view L s (Ok (c, fss, views)) v = Ok (c1, fss1, views1) -> c1 = c.
+  step_view L s (Ok (c, fss, views, wr)) v = Ok (c1, fss1, views1, wr1) -> c1 = c.
 Proof.
   intros Harr. unfold step_view. cbn [bind].
   destruct (enc_view (c_heap c) v) as [jv| |]; cbn [bind]; try discriminate.
-  destruct (s_arr (v_sofa v)) as [o|] eqn:Ea.
+  destruct (s_arr (v_sofa v)) as [o|] eqn:Ea; [destruct (omem o wr)|].
+  - cbn [bind]. destruct (enc_sofa L c (v_sofa v)) as [ms| |]; cbn [bind]; try discriminate. intros [= <- _ _ _]. reflexivity.
   - destruct (Harr o eq_refl) as (f & i & Hg & Hi). rewrite Hg, Hi.
     destruct (enc_fs L s c f) as [m| |]; cbn [bind]; try discriminate.
-    destruct (enc_sofa L c (v_sofa v)) as [ms| |]; cbn [bind]; try discriminate. intros [= <- _ _]. reflexivity.
-  - cbn [bind]. destruct (enc_sofa L c (v_sofa v)) as [ms| |]; cbn [bind]; try discriminate. intros [= <- _ _]. reflexivity.
+    destruct (enc_sofa L c (v_sofa v)) as [ms| |]; cbn [bind]; try discriminate. intros [= <- _ _ _]. reflexivity.
+  - cbn [bind]. destruct (enc_sofa L c (v_sofa v)) as [ms| |]; cbn [bind]; try discriminate. intros [= <- _ _ _]. reflexivity.
 Qed.
-Lemma loop_same L s c : forall vs fss views c1 fss1 views1,
+Lemma loop_same L s c : forall vs fss views wr c1 fss1 views1 wr1,
   (forall v o, In v vs -> s_arr (v_sofa v) = Some o -> exists f i, hget (c_heap c) o = Some f /\ o_id f = Some i) ->
-  fold_left (step_view L s) vs (Ok (c, fss, views)) = Ok (c1, fss1, views1) -> c1 = c.
+  fold_left (step_view L s) vs (Ok (c, fss, views, wr)) = Ok (c1, fss1, views1, wr1) -> c1 = c.
 Proof.
-  induction vs as [|v r IH]; intros fss views c1 fss1 views1 Harr H; cbn [fold_left] in H; [inversion H; reflexivity|].
-  destruct (step_view L s (Ok (c, fss, views)) v) as [[[c2 fss2] views2]| |] eqn:E;
+  induction vs as [|v r IH]; intros fss views wr c1 fss1 views1 wr1 Harr H; cbn [fold_left] in H; [inversion H; reflexivity|].
+  destruct (step_view L s (Ok (c, fss, views, wr)) v) as [[[[c2 fss2] views2] wr2]| |] eqn:E;
     [|rewrite fold_step_err in H; discriminate|rewrite fold_step_oof in H; discriminate].
-  pose proof (step_view_same L s c fss views v c2 fss2 views2 (fun o Ho => Harr v o (or_introl eq_refl) Ho) E) as ->.
-  exact (IH _ _ _ _ _ (fun v' o Hv' => Harr v' o (or_intror Hv')) H).
+  pose proof (step_view_same L s c fss views wr v c2 fss2 views2 wr2 (fun o Ho => Harr v o (or_introl eq_refl) Ho) E) as ->.
+  exact (IH _ _ _ _ _ _ _ (fun v' o Hv' => Harr v' o (or_intror Hv')) H).
 Qed.
 Theorem save_json_same L s mode c d c' : wf_convb s c = true -> save_json L s mode c = Ok (d, c') -> c' = c.
 Proof.
@@ -117,9 +118,9 @@ Proof.
     assert (Hin : In o (sofa_arrays c)) by (unfold sofa_arrays; apply in_flat_map; exists v; split; [exact Hv|rewrite Ho; left; reflexivity]).
     specialize (HJ o Hin). destruct (hget (c_heap c) o) as [f|] eqn:Hg; [|discriminate]. apply andb_prop in HJ. destruct HJ as [_ HJ].
     destruct (o_id f) as [i|] eqn:Hi; [|discriminate]. exists f, i. split; [reflexivity|exact Hi]. }
-  unfold save_json, save_found in HS.
-  destruct (fold_left (step_view L s) (c_views c) (Ok (c, [], []))) as [[[c1 sofa_fs] views]| |] eqn:El; cbn [bind] in HS; try discriminate.
-  pose proof (loop_same L s c _ _ _ _ _ _ Harr El) as ->.
+  unfold save_json, save_found_wr in HS.
+  destruct (fold_left (step_view L s) (c_views c) (Ok (c, [], [], []))) as [[[[c1 sofa_fs] views] wr]| |] eqn:El; cbn [bind] in HS; try discriminate.
+  pose proof (loop_same L s c _ _ _ _ _ _ _ _ Harr El) as ->.
   destruct (find_all_fs true s c) as [w| |] eqn:Ew; cbn [bind] in HS; try discriminate.
   rewrite (json_traversal_same s c w HW Ew) in HS.
   repeat match type of HS with bind ?m _ = _ => destruct m; cbn [bind] in HS; try discriminate HS end.
